@@ -1,4 +1,4 @@
-\* C20: one broker, standard (reverse-connect) mode
+\* C20 (standard mode, 1 broker(s), <= 3 rogue connections / <= 0 broker messages)
 SPECIFICATION Spec
 CONSTANTS
   NB = 1
